@@ -133,7 +133,7 @@ func specTerm(judged bool, declared bool) string {
 
 func runC12(cfg *vh.Config) error {
 	res := vh.NewResult("C12", cfg.Seed)
-	res.Rule = "declarations: integer (4 formats; minimum/maximum absent, 0, format min/max, near them; exclusive flags absent/false/true), string (min/max length absent/0/1-6, pattern incl. patterns RE2 rejects), bytes, bool const, enum in/not-in (short and prefixed names), key (none/informal/custom incl. ill-formed patterns/uuid/id62, primary key), float and message-typed fields; each plain, required, optional, or as array (min/max items absent/0/1-6, unique absent/false/true, also on float and message items) or map; values: below/at/above every bound, multi-byte strings, (non-)matching patterns, undefined enum numbers, absent vs zero, +0/-0/NaN, lists with and without duplicates (messages with equal and different content); non-trivial = distinct declaration carrying at least one rule, required flag or format"
+	res.Rule = "declarations: integer (4 formats; minimum/maximum absent, 0, format min/max, near them; exclusive flags absent/false/true), string (min/max length absent/0/1-6, pattern incl. patterns RE2 rejects), bytes, bool const, enum in/not-in (short and prefixed names; enum with / without an explicit zero option, or with a first option merely ending in UNSPECIFIED = an ordinary option; declared in the same file, another file of the package, an imported package), key (none/informal/custom incl. ill-formed patterns/uuid/id62, primary key), float and message-typed fields; each plain, required, optional, or as array (min/max items absent/0/1-6, unique absent/false/true, also on float and message items) or map; values: below/at/above every bound, multi-byte strings, (non-)matching patterns, undefined enum numbers, absent vs zero, +0/-0/NaN, lists with and without duplicates (messages with equal and different content); non-trivial = distinct declaration carrying at least one rule, required flag or format"
 	cf := &vh.CasesFile{
 		Header: "From Coq Require Import String List NArith ZArith.\nFrom J5V.lib Require Import Outcome.\nFrom J5V.model Require Import RulesDecl RulesRead RulesNested RulesNestedSem RulesOneof RulesCompile RulesCorr.",
 		Type:   "c12case",
@@ -212,7 +212,7 @@ func runC12(cfg *vh.Config) error {
 			res.Count("message")
 			res.Count("message-" + vd.String())
 			vt, ok := vd.Coq()
-			input := map[string]any{"j5s": strings.Join(src, ""), "values": shown}
+			input := map[string]any{"j5s": strings.Join(src, ""), "values": shown, "enum": env.SourceNote()}
 			switch {
 			case !ok:
 				res.Fail(vh.Failure{Case: caseNo, Stream: "message", Sig: "C12 message: the validator fails on a whole message: " + firstWords(vd.Problem, 8),
@@ -273,6 +273,12 @@ func runC12(cfg *vh.Config) error {
 					res.Count(vd.String())
 					declared := judged && ruleSem(env, p.P, fv)
 					input := map[string]any{"j5s": p.P.J5S(env), "value": fv.String()}
+					if p.P.T.Kind == TEnum {
+						input["enum"] = env.SourceNote()
+						if n := fv.One.I; p.P.PK == PSingle && !fv.Absent && n >= 1 && n <= int64(len(env.Options)) {
+							input["value_is_option"] = env.Options[n-1]
+						}
+					}
 					vt, ok := vd.Coq()
 					switch {
 					case !ok:
@@ -318,19 +324,40 @@ func runC12(cfg *vh.Config) error {
 	defer func() { genMapExt = false }()
 	for u := 0; u < nUnits; u++ {
 		genAST = r.Chance(25)
-		if genAST {
-			res.Count("unit-via-ast")
-		}
 		env = theEnum
 		if r.Chance(30) {
 			env = theEnumZ
 			res.Count("unit-explicit-zero-option")
 		}
 		var props []genDecl
-		if u == 0 {
+		switch {
+		case u == 0:
 			env = theEnumZ
 			props = pinnedC12()
 			res.Count("unit-pinned")
+		case u <= len(oddFirst):
+			// a first option that merely ends in UNSPECIFIED, the enum declared next to the
+			// object / in another file of the package / in an imported package
+			env = oddEnum(oddFirst[u-1], u-1)
+			props = pinnedOddC12(env)
+			res.Count("unit-pinned")
+		default:
+			if r.Chance(20) {
+				env = oddEnum(vh.Pick(r, oddFirst), 0)
+			}
+			if r.Chance(30) {
+				env.Where = 1 + r.Intn(2)
+			}
+		}
+		if len(env.Options) > 0 && strings.HasSuffix(env.Options[0], "UNSPECIFIED") {
+			res.Count("unit-first-option-ends-in-unspecified")
+		}
+		if env.Where != 0 {
+			genAST = false // several source files: text path
+			res.Count([...]string{"", "unit-enum-in-another-file", "unit-enum-in-imported-package"}[env.Where])
+		}
+		if genAST {
+			res.Count("unit-via-ast")
 		}
 		for i, n := 0, r.Range(2, 6); i < n && u > 0; i++ {
 			scope := "c12"
